@@ -146,3 +146,15 @@ def report_check(ctx, account=True):
 
 def replay_report(ctx, path):
     return pc.replay_prog(ctx, path)
+
+
+def extra_cases(ctx):
+    """Name expected by the hook in harness/props/c20.py:
+        from .. import stats_report
+        def extra_cases(ctx):
+            return stats_report.extra_cases(ctx)
+    and in c20.replay, before the readable_count branch:
+        if d.get("label") == "report":
+            return stats_report.replay_report(ctx, path)
+    """
+    return report_check(ctx)
